@@ -286,12 +286,14 @@ class PDFXRefStream(PDFBaseXRef):
             raise PDFNoValidXRef("Unexpected EOF")
         if not isinstance(stream, PDFStream) or stream.get("Type") is not LITERAL_XREF:
             raise PDFNoValidXRef("Invalid PDF stream spec.")
-        size = stream["Size"]
-        index_array = stream.get("Index", (0, size))
+        index_array = self._uint_list(stream.get("Index", (0, stream.get("Size"))))
+        widths = self._uint_list(stream.get("W"))
+        if index_array is None or widths is None or len(widths) != 3:
+            raise PDFNoValidXRef("Invalid /Size, /Index or /W in xref stream.")
         if len(index_array) % 2 != 0:
             raise PDFSyntaxError("Invalid index number")
         self.ranges.extend(cast(Iterator[Tuple[int, int]], choplist(2, index_array)))
-        (self.fl1, self.fl2, self.fl3) = stream["W"]
+        (self.fl1, self.fl2, self.fl3) = widths
         assert self.fl1 is not None and self.fl2 is not None and self.fl3 is not None
         self.data = stream.get_data()
         self.entlen = self.fl1 + self.fl2 + self.fl3
@@ -303,6 +305,17 @@ class PDFXRefStream(PDFBaseXRef):
             self.fl2,
             self.fl3,
         )
+
+    @staticmethod
+    def _uint_list(value: object) -> Optional[List[int]]:
+        """The non-negative integers of an array entry, or None if it is anything else."""
+        value = resolve1(value)
+        if not isinstance(value, (list, tuple)):
+            return None
+        items = [resolve1(v) for v in value]
+        if not all(isinstance(v, int) and v >= 0 for v in items):
+            return None
+        return items
 
     def get_trailer(self) -> Dict[str, Any]:
         return self.trailer
